@@ -154,7 +154,21 @@ func init() {
 				}
 				ok := write != nil && sum != nil && set != nil && desc(write.Call.Args[0]) == "arg#0" && desc(write.Call.Value) == "call:crypto/sha256.New()" &&
 					desc(sum.Call.Value) == "call:crypto/sha256.New()" && isNilConst(sum.Call.Args[0]) && set.Call.Args[1] == ssa.Value(sum)
-				R.decide("C15.c", "common.IntHashSha256:shape", "SetBytes(sha256.New().Write(input).Sum(nil))", ok, "", P.Pos(fn.Pos()))
+				// equivalent one-shot form: SetBytes(sha256.Sum256(input)[:])
+				if !ok && set != nil && write == nil {
+					if sl, isSl := set.Call.Args[1].(*ssa.Slice); isSl && sl.Low == nil && sl.High == nil {
+						if al, isAl := sl.X.(*ssa.Alloc); isAl {
+							for _, r := range referrersOf(al) {
+								if st, isSt := r.(*ssa.Store); isSt && st.Addr == ssa.Value(al) {
+									if c, isC := st.Val.(*ssa.Call); isC && isCallTo(c, "crypto/sha256.Sum256") && desc(c.Call.Args[0]) == "arg#0" {
+										ok = true
+									}
+								}
+							}
+						}
+					}
+				}
+				R.decide("C15.c", "common.IntHashSha256:shape", "SetBytes of the whole SHA-256 digest of exactly the input (streaming or one-shot form)", ok, "", P.Pos(fn.Pos()))
 				okRet := set != nil
 				for _, r := range returnsOf(fn) {
 					if set == nil || siteOf(r.Results[0]) != siteOf(set) {
@@ -228,6 +242,7 @@ func getHashNumberRule(P *Program, R *Report) {
 	// evaluate the append chain with the two optional elements
 	listOK := false
 	var notes []string
+	var lastElem ssa.Value // the counter: the last element appended to the hashed list
 	{
 		// walk the chain backwards from the hashed slice
 		v := hc.Call.Args[0]
@@ -237,6 +252,9 @@ func getHashNumberRule(P *Program, R *Report) {
 			case *ssa.Call:
 				if isCallTo(x, "builtin:append") {
 					t, ok := seqTail(x.Call.Args[1], 0, map[ssa.Value]bool{})
+					if ok && len(t) == 1 && lastElem == nil && len(tail) == 0 {
+						lastElem = t[0].V
+					}
 					if ok && len(t) == 1 {
 						cond := ""
 						for _, a := range controllingConds(x.Block()) {
@@ -336,7 +354,11 @@ func getHashNumberRule(P *Program, R *Report) {
 			}
 			// counter: tmp[countIdx].Add(tmp[countIdx], 1)
 			d0, d1 := desc(c.Call.Args[0]), desc(c.Call.Args[1])
-			if d0 == d1 && strings.Contains(d0, "[len(") {
+			isCounter := d0 == d1 && strings.Contains(d0, "[len(")
+			if lastElem != nil && siteOf(c.Call.Args[0]) == siteOf(lastElem) && siteOf(c.Call.Args[1]) == siteOf(lastElem) {
+				isCounter = true // the counter object itself, kept in a local
+			}
+			if isCounter {
 				if k, ok := P.bigEval(fn).At[c]; ok && len(k) == 3 && k[2].equal(tconst(1)) {
 					okCounter = true
 				}
